@@ -225,6 +225,9 @@ def bus_isolation(chk, rng, thorough):
     base = refwire.msg(4, 91, [('path', '/h'), ('interface', 'org.ex.H'), ('member', 'Hostile'), ('destination', vname)], 's', ['payload'])
     inputs = [('flag %r with palindromic lengths' % bytes([f]), palindromic_message(f, vname)) for f in (ord('X'), ord('b'), 0, 255, ord('L'))]
     muts = mutations(rng, base, thorough)
+    inputs += [m for m in muts if m[0].startswith('lie@4=') or m[0].startswith('lie@12=')]      # body / header-array length lies
+    inputs += [('header only, body length 2^27+1', base[:4] + (2 ** 27 + 1).to_bytes(4, 'little') + base[8:16]),
+               ('header only, header length 2^27+1', base[:12] + (2 ** 27 + 1).to_bytes(4, 'little'))]
     inputs += rng.sample(muts, min(len(muts), 400 if thorough else 80))
     assert probe(0), 'probe does not arrive on the undisturbed bus'
     recs, names = [], []
@@ -483,7 +486,9 @@ def run(tier, seed):
             j, after_n, r['before'], r['after']), dict(kind='code->spec isolation', module='c05', rec=r, after_hostile_inputs=after_n))
     # copying: bytes produced by slicing the input while decoding stay proportional to its length
     cw = []
-    for name, raw, _ in scaling_cases()[:1] + [('nested', refwire.msg(4, 94, [('path', '/a'), ('interface', 'a.b'), ('member', 'S')], 'aaay',
+    for name, raw, _ in scaling_cases()[:1] + [('strings', refwire.msg(4, 95, [('path', '/a'), ('interface', 'a.b'), ('member', 'S')], 'asa{ss}',
+                                                           [['s%d' % i for i in range(2000)], [('k%d' % i, 'v') for i in range(1000)]]), 7),
+                                               ('nested', refwire.msg(4, 94, [('path', '/a'), ('interface', 'a.b'), ('member', 'S')], 'aaay',
                                                           [[[[i % 200] * 3 for i in range(40)] for _ in range(40)]]), 4)]:
         r = copy_work(raw)
         cw.append((name, r))
